@@ -408,10 +408,47 @@ def r4b_shared_buffer_io(ctx):
                 if o.kind == "raw":
                     ag.add(f"{qualname_of(o.node) or q}: shared buffers are allocated as c_double", o.meta.get("ctype") == C_DOUBLE, o.node,
                            show(o.meta.get("ctype")))
+            for oid, shp, node in sim.shaped:
+                size = lf.term(sim.heap[oid].meta.get("size"))
+                shp = lf.term(shp)
+                dims = _prod_arg(size)
+                if dims is not None and is_tag(shp, "tuple"):
+                    ok = dims == shp
+                    ag.add(f"{qualname_of(node) or q}: a shared buffer is viewed with the shape it was allocated for", ok, node,
+                           None if ok else {"allocated for": show(dims)[:200], "viewed as": show(shp)[:200]})
+                elif is_tag(size, "attr") and size[2] == "size" and is_tag(shp, "attr") and shp[2] == "shape" and size[1] == shp[1]:
+                    ag.add(f"{qualname_of(node) or q}: a shared buffer is viewed with the shape it was allocated for", True, node)
     ag.flush()
 
 
+def _prod_arg(size):
+    """int(np.prod(dims)) -> dims as a tuple term"""
+    t = size
+    if is_tag(t, "call") and t[1] == ("ext", "builtins.int") and len(t[2]) == 1:
+        t = t[2][0]
+    if is_tag(t, "call") and t[1] in (("ext", "numpy.prod"), ("ext", "numpy.product"), ("ext", "math.prod")) and len(t[2]) == 1:
+        d = t[2][0]
+        if is_tag(d, "tuple", "list"):
+            return ("tuple",) + tuple(d[1:])
+    return None
+
+
 # ------------------------------------------------------------------------------------------------------------------- R5
+def _shapes(leaf, v, assign):
+    """{path: shape term} of the arrays reachable from a local (the array itself, or the entries of a dict)"""
+    sim = leaf.sim
+    out = {}
+    if is_tag(v, "ref") and sim.heap[v[1]].kind in ("raw", "array"):
+        sh = sim.ref_shape(v)
+        if sh is not None:
+            out[""] = leaf.term(sh, assign)
+    elif is_tag(v, "dref"):
+        for k, x in sim.heap[v[1]].entries.items():
+            for kk, sh in _shapes(leaf, x, assign).items():
+                out[f"[{show(k)}]{kk}"] = sh
+    return out
+
+
 def _has_shared(sim, v):
     for x in subterms(v):
         if is_tag(x, "ref") and sim.heap[x[1]].kind == "raw":
@@ -481,6 +518,12 @@ def r5_serial_equals_worker(ctx):
                         ag.add(f"{q}: `{n}`, which the code after the parallel/serial split reads, is bound on both paths [{ws}]", False, fn,
                                "unbound on the " + ("parallel" if rp is None else "serial") + " path")
                         continue
+                    shp_p, shp_s = _shapes(p, rp, up), _shapes(s, rs, us)
+                    for k in sorted(set(shp_p) & set(shp_s)):
+                        ok = shp_p[k] == shp_s[k]
+                        ag.add(f"{q}: `{n}{k}` has the same shape after the parallel arm ({ws}) and after the serial arm", ok,
+                               p.sim.launches[0].node if p.sim.launches else fn,
+                               None if ok else {"parallel": show(shp_p[k])[:300], "serial": show(shp_s[k])[:300]})
                     vp, vs = p.term(rp, up), s.term(rs, us)
                     if any(is_tag(x, "poison") for x in subterms(vp)) or any(is_tag(x, "poison") for x in subterms(vs)):
                         raise Unsup(f"{q}: `{n}` is read after the split but is a loop-local of one arm")
